@@ -15,6 +15,11 @@
 #include <nop/status.h>
 #include <nop/table.h>
 #include <nop/types/handle.h>
+#include <nop/types/file_handle.h>
+#include <fcntl.h>
+#include <sys/mman.h>
+#include <sys/syscall.h>
+#include <unistd.h>
 #include <nop/types/optional.h>
 #include <nop/types/result.h>
 #include <nop/types/variant.h>
@@ -423,6 +428,76 @@ static std::string RunUh(const std::vector<std::string>& ops) {
   return out;
 }
 
+// ------------------------------------------- UniqueFileHandle (real descriptors) --
+// Every ::close() the library issues goes through this definition, which logs the descriptor while a history runs.
+static bool g_track_close = false;
+extern "C" int close(int fd) {
+  if (g_track_close && fd >= 0) g_closed.push_back(fd);
+  return static_cast<int>(syscall(SYS_close, fd));
+}
+static int RealClose(int fd) { return static_cast<int>(syscall(SYS_close, fd)); }
+
+// the same histories as RunUh; resource number x >= 0 is the open descriptor x (descriptor 0 included: the harness's
+// own standard input is parked on another descriptor while the history runs)
+static std::string RunUfh(const std::vector<std::string>& ops) {
+  using FH = nop::UniqueFileHandle;
+  auto p = std::make_unique<Pool<FH>>();
+  g_closed.clear(); g_released.clear();
+  const int parked = fcntl(0, F_DUPFD, 300);
+  RealClose(0);
+  std::vector<int> made;
+  auto make_fd = [&](long x) {
+    int m = memfd_create("verif-ufh", 0);
+    if (m != x) { dup2(m, static_cast<int>(x)); RealClose(m); }
+    made.push_back(static_cast<int>(x));
+  };
+  std::string out;
+  g_track_close = true;
+  for (const auto& op : ops) {
+    char c = op[0];
+    std::vector<std::string> a = Split(op.substr(1), ':');
+    int i = std::stoi(a[0]);
+    long x = a.size() > 1 ? std::stol(a[1]) : 0;
+    bool done = true;
+    auto dead = [&](int q) { return q >= 0 && q < 3 && !p->alive[q]; };
+    auto live = [&](int q) { return q >= 0 && q < 3 && p->alive[q]; };
+    switch (c) {
+      case 'N': if (dead(i)) { new (p->mem[i]) FH(); p->alive[i] = true; } else done = false; break;
+      case 'V': if (dead(i)) { if (x >= 0) { g_track_close = false; make_fd(x); g_track_close = true; } new (p->mem[i]) FH(static_cast<int>(x)); p->alive[i] = true; } else done = false; break;
+      case 'X': if (dead(i) && live(static_cast<int>(x))) { new (p->mem[i]) FH(std::move(*p->at(static_cast<int>(x)))); p->alive[i] = true; } else done = false; break;
+      case 'D': if (live(i)) { p->at(i)->~FH(); p->alive[i] = false; } else done = false; break;
+      case 'm': if (live(i) && live(static_cast<int>(x))) { *p->at(i) = std::move(*p->at(static_cast<int>(x))); } else done = false; break;
+      case 'c': if (live(i)) { p->at(i)->close(); } else done = false; break;
+      case 'r': if (live(i)) { long r = p->at(i)->release(); if (r >= 0) g_released.push_back(r); } else done = false; break;
+      default: done = false;
+    }
+    std::string s;
+    for (int q = 0; q < 3; q++) {
+      if (q) s += ";";
+      if (!p->alive[q]) { s += "X"; continue; }
+      FH* h = p->at(q);
+      if (static_cast<bool>(*h) != (h->get() >= 0)) { s += "INCONSISTENT"; continue; }
+      // empty handles of any negative value print as the model's -1 only when they are the policy's empty value
+      s += std::to_string(h->get());
+    }
+    if (!out.empty()) out += " ";
+    out += std::string(done ? "" : "skip ") + s + "|" + ListOf(g_closed) + "|" + ListOf(g_released);
+  }
+  for (int i = 0; i < 3; i++) if (p->alive[i]) { p->at(i)->~FH(); }
+  g_track_close = false;
+  out += " end=" + ListOf(g_closed) + "|" + ListOf(g_released);
+  // a descriptor the library should have closed and did not is still open here
+  std::string open_left;
+  for (int fd : made) {
+    bool released = false;
+    for (long r : g_released) released = released || r == fd;
+    if (fcntl(fd, F_GETFD) != -1) { if (!released) open_left += (open_left.empty() ? "" : ",") + std::to_string(fd); RealClose(fd); }
+  }
+  out += " leaked=" + (open_left.empty() ? std::string("-") : open_left);
+  dup2(parked, 0); RealClose(parked);
+  return out;
+}
+
 // ------------------------------------------------- the 18 comparison operators --
 static std::string Cmp() {
   // operand states: E (empty), 0, 1, 2 ; for Optional-value the value side has no E
@@ -471,6 +546,7 @@ int main() {
       else if (tok[0] == "var") out = RunVar(ops);
       else if (tok[0] == "varm") out = RunVarM(ops);
       else if (tok[0] == "uh") out = RunUh(ops);
+      else if (tok[0] == "ufh") out = RunUfh(ops);
       else if (tok[0] == "cmp") out = Cmp();
       else if (tok[0] == "msgs") out = Messages();
       else out = "HARNESS-ERROR unknown op";
